@@ -20,10 +20,11 @@ static const double EPSF = 5.9604644775390625e-8;   // 2^-24: half an ulp of sin
 
 static inline int ilog(int64_t x) { int r = 0; while (x > 0) { r++; x >>= 1; } return r; }
 
-struct Field { size_t pos; int bits; };   // where a header field was written (for field-level mutation by the fuzzing harnesses)
+struct Field { size_t pos; int bits; int cat = 0; uint64_t val = 0; };   // cat: which kind of field (BitW::cat at the time of writing), val: the value written   // where a header field was written (for field-level mutation by the fuzzing harnesses)
 struct BitW {
-  std::vector<uint8_t> b; size_t n = 0; std::vector<Field> *log = nullptr;
-  void put(uint64_t v, int bits) { if (log && bits > 0) log->push_back(Field{n, bits}); for (int i = 0; i < bits; i++) { if ((n & 7) == 0) b.push_back(0); if ((v >> i) & 1) b[n >> 3] |= (uint8_t)(1u << (n & 7)); n++; } }
+  std::vector<uint8_t> b; size_t n = 0; std::vector<Field> *log = nullptr; int cat = 0;
+  BitW &c(int k) { cat = k; return *this; }
+  void put(uint64_t v, int bits) { if (log && bits > 0) log->push_back(Field{n, bits, cat, v}); for (int i = 0; i < bits; i++) { if ((n & 7) == 0) b.push_back(0); if ((v >> i) & 1) b[n >> 3] |= (uint8_t)(1u << (n & 7)); n++; } }
   void put_msb(uint32_t code, int len) { for (int i = len - 1; i >= 0; i--) put((code >> i) & 1, 1); }   // Huffman codewords: first bit read = first branch
 };
 struct BitR {
@@ -115,40 +116,40 @@ static inline std::vector<uint8_t> write_comment(const std::string &vendor, cons
   w.put((uint32_t)c.size(), 32); for (auto &e : c) { w.put((uint32_t)e.size(), 32); for (char ch : e) w.put((uint8_t)ch, 8); } w.put(1, 1); return w.b;
 }
 static inline void write_book(BitW &w, const Book &b) {
-  w.put(0x564342, 24); w.put((uint32_t)b.dim, 16); w.put((uint32_t)b.entries, 24); w.put(b.ordered ? 1 : 0, 1);
-  if (!b.ordered) { w.put(b.sparse ? 1 : 0, 1); for (int i = 0; i < b.entries; i++) { if (b.sparse) { w.put(b.len[i] ? 1 : 0, 1); if (!b.len[i]) continue; } w.put((uint32_t)(b.len[i] - 1), 5); } }
-  else { int cur = 0, l = b.entries ? b.len[0] : 1; w.put((uint32_t)(l - 1), 5); while (cur < b.entries) { int n = 0; while (cur + n < b.entries && b.len[cur + n] == l) n++; w.put((uint32_t)n, ilog(b.entries - cur)); cur += n; l++; } }
-  w.put((uint32_t)b.lookup, 4);
-  if (b.lookup) { w.put(b.qmin, 32); w.put(b.qdelta, 32); w.put((uint32_t)(b.qbits - 1), 4); w.put((uint32_t)b.seqp, 1); for (uint32_t m : b.mult) w.put(m, b.qbits); }
+  w.c(27).put(0x564342, 24); w.c(1).put((uint32_t)b.dim, 16); w.c(2).put((uint32_t)b.entries, 24); w.c(3).put(b.ordered ? 1 : 0, 1);
+  if (!b.ordered) { w.put(b.sparse ? 1 : 0, 1); w.c(4); for (int i = 0; i < b.entries; i++) { if (b.sparse) { w.put(b.len[i] ? 1 : 0, 1); if (!b.len[i]) continue; } w.put((uint32_t)(b.len[i] - 1), 5); } }
+  else { w.c(4); int cur = 0, l = b.entries ? b.len[0] : 1; w.put((uint32_t)(l - 1), 5); while (cur < b.entries) { int n = 0; while (cur + n < b.entries && b.len[cur + n] == l) n++; w.put((uint32_t)n, ilog(b.entries - cur)); cur += n; l++; } }
+  w.c(5).put((uint32_t)b.lookup, 4);
+  if (b.lookup) { w.c(6).put(b.qmin, 32); w.put(b.qdelta, 32); w.c(7).put((uint32_t)(b.qbits - 1), 4); w.put((uint32_t)b.seqp, 1); w.c(8); for (uint32_t m : b.mult) w.put(m, b.qbits); }
 }
 static inline std::vector<uint8_t> write_setup(const Setup &s, std::vector<Field> *log = nullptr) {
-  BitW w; w.log = log; w.put(5, 8); put_str(w, "vorbis");
-  w.put((uint32_t)s.books.size() - 1, 8); for (auto &b : s.books) write_book(w, b);
-  w.put(0, 6); w.put(0, 16);
+  BitW w; w.log = log; w.c(27).put(5, 8); put_str(w, "vorbis");
+  w.c(9).put((uint32_t)s.books.size() - 1, 8); for (auto &b : s.books) write_book(w, b);
+  w.c(9).put(0, 6); w.put(0, 16);
   w.put((uint32_t)s.floors.size() - 1, 6);
   for (auto &f : s.floors) {
-    w.put((uint32_t)f.type, 16);
-    if (f.type == 0) { auto &z = f.f0; w.put(z.order, 8); w.put(z.rate, 16); w.put(z.barkmap, 16); w.put(z.ampbits, 6); w.put(z.ampoff, 8); w.put((uint32_t)z.books.size() - 1, 4); for (int b : z.books) w.put(b, 8); }
-    else { auto &o = f.f1; w.put(o.partitions, 5); for (int i = 0; i < o.partitions; i++) w.put(o.pclass[i], 4);
-      for (int c = 0; c < o.nclass(); c++) { w.put(o.cdim[c] - 1, 3); w.put(o.csubs[c], 2); if (o.csubs[c]) w.put(o.cbook[c], 8); for (int k = 0; k < (1 << o.csubs[c]); k++) w.put((uint32_t)(o.csub[c][k] + 1), 8); }
-      w.put(o.mult - 1, 2); w.put(o.rangebits, 4); for (size_t i = 2; i < o.X.size(); i++) w.put(o.X[i], o.rangebits); }
+    w.c(10).put((uint32_t)f.type, 16);
+    if (f.type == 0) { auto &z = f.f0; w.c(11).put(z.order, 8); w.put(z.rate, 16); w.put(z.barkmap, 16); w.put(z.ampbits, 6); w.put(z.ampoff, 8); w.c(12).put((uint32_t)z.books.size() - 1, 4); for (int b : z.books) w.put(b, 8); }
+    else { auto &o = f.f1; w.c(13).put(o.partitions, 5); for (int i = 0; i < o.partitions; i++) w.put(o.pclass[i], 4);
+      w.c(14); for (int c = 0; c < o.nclass(); c++) { w.put(o.cdim[c] - 1, 3); w.put(o.csubs[c], 2); if (o.csubs[c]) w.put(o.cbook[c], 8); for (int k = 0; k < (1 << o.csubs[c]); k++) w.put((uint32_t)(o.csub[c][k] + 1), 8); }
+      w.c(15).put(o.mult - 1, 2); w.put(o.rangebits, 4); w.c(16); for (size_t i = 2; i < o.X.size(); i++) w.put(o.X[i], o.rangebits); }
   }
-  w.put((uint32_t)s.residues.size() - 1, 6);
+  w.c(9).put((uint32_t)s.residues.size() - 1, 6);
   for (auto &r : s.residues) {
-    w.put(r.type, 16); w.put(r.begin, 24); w.put(r.end, 24); w.put(r.psize - 1, 24); w.put(r.classes - 1, 6); w.put(r.classbook, 8);
-    for (int i = 0; i < r.classes; i++) { int lo = r.cascade[i] & 7, hi = r.cascade[i] >> 3; w.put(lo, 3); w.put(hi ? 1 : 0, 1); if (hi) w.put(hi, 5); }
-    for (int i = 0; i < r.classes; i++) for (int j = 0; j < 8; j++) if (r.cascade[i] & (1 << j)) w.put(r.books[i][j], 8);
+    w.c(17).put(r.type, 16); w.c(18).put(r.begin, 24); w.put(r.end, 24); w.put(r.psize - 1, 24); w.c(19).put(r.classes - 1, 6); w.put(r.classbook, 8);
+    w.c(20); for (int i = 0; i < r.classes; i++) { int lo = r.cascade[i] & 7, hi = r.cascade[i] >> 3; w.put(lo, 3); w.put(hi ? 1 : 0, 1); if (hi) w.put(hi, 5); }
+    w.c(21); for (int i = 0; i < r.classes; i++) for (int j = 0; j < 8; j++) if (r.cascade[i] & (1 << j)) w.put(r.books[i][j], 8);
   }
-  w.put((uint32_t)s.mappings.size() - 1, 6);
+  w.c(9).put((uint32_t)s.mappings.size() - 1, 6);
   for (auto &m : s.mappings) {
-    w.put(0, 16); w.put(m.submaps > 1 ? 1 : 0, 1); if (m.submaps > 1) w.put(m.submaps - 1, 4);
-    w.put(m.mag.empty() ? 0 : 1, 1); if (!m.mag.empty()) { w.put((uint32_t)m.mag.size() - 1, 8); for (size_t i = 0; i < m.mag.size(); i++) { w.put(m.mag[i], ilog(s.channels - 1)); w.put(m.ang[i], ilog(s.channels - 1)); } }
-    w.put(0, 2); if (m.submaps > 1) for (int c = 0; c < s.channels; c++) w.put(m.mux[c], 4);
-    for (int i = 0; i < m.submaps; i++) { w.put(0, 8); w.put(m.sfloor[i], 8); w.put(m.sres[i], 8); }
+    w.c(22).put(0, 16); w.put(m.submaps > 1 ? 1 : 0, 1); if (m.submaps > 1) w.put(m.submaps - 1, 4);
+    w.c(23).put(m.mag.empty() ? 0 : 1, 1); if (!m.mag.empty()) { w.put((uint32_t)m.mag.size() - 1, 8); for (size_t i = 0; i < m.mag.size(); i++) { w.put(m.mag[i], ilog(s.channels - 1)); w.put(m.ang[i], ilog(s.channels - 1)); } }
+    w.c(22).put(0, 2); w.c(24); if (m.submaps > 1) for (int c = 0; c < s.channels; c++) w.put(m.mux[c], 4);
+    w.c(25); for (int i = 0; i < m.submaps; i++) { w.put(0, 8); w.put(m.sfloor[i], 8); w.put(m.sres[i], 8); }
   }
-  w.put((uint32_t)s.modes.size() - 1, 6);
-  for (auto &m : s.modes) { w.put(m.blockflag, 1); w.put(0, 16); w.put(0, 16); w.put(m.mapping, 8); }
-  w.put(1, 1); return w.b;
+  w.c(9).put((uint32_t)s.modes.size() - 1, 6);
+  w.c(26); for (auto &m : s.modes) { w.put(m.blockflag, 1); w.put(0, 16); w.put(0, 16); w.put(m.mapping, 8); }
+  w.c(27).put(1, 1); return w.b;
 }
 
 // overwrite one logged field of a serialised header with a new value (LSb-first, like put)
